@@ -173,6 +173,7 @@ def oracle(planner, ops, out, rc, err):
     multi = planner in MULTI
     ctx = contexts(ops)
     n_ops = len(ops)
+    valid_start = False
     if out is None:
         return [(0, "no-return", "the process did not finish within the process timeout")]
     for i, ln in enumerate(ops):
@@ -187,6 +188,10 @@ def oracle(planner, ops, out, rc, err):
         if " EXC:" in o and op != "solve":
             fails.append((i, "exception", o[:200]))
             continue
+        if op in ("setpd", "setsg"):
+            valid_start = kv(o).get("svalid") == "1"
+        elif op == "addstart":
+            valid_start = valid_start or kv(o).get("svalid") == "1"
         if op != "solve":
             continue
         d = kv(o)
@@ -200,6 +205,8 @@ def oracle(planner, ops, out, rc, err):
             fails.append((i, "status-exact", "EXACT_SOLUTION but hasExactSolution() is false (nsol=%s)" % d["nsol"]))
         if st == "APPROXIMATE_SOLUTION" and d["has"] != "1":
             fails.append((i, "status-approx", "APPROXIMATE_SOLUTION but the problem definition holds no solution"))
+        if st == "INVALID_START" and valid_start:
+            fails.append((i, "invalid-start", "INVALID_START although the problem definition holds a valid start state"))
         if st in NOSOL_STATUS and added != 0:
             fails.append((i, "status-none", "%s although this call added %d solution(s)" % (st, added)))
         if st not in NOSOL_STATUS and st not in ("EXACT_SOLUTION", "APPROXIMATE_SOLUTION"):
